@@ -24,7 +24,9 @@ RULE = ('(a) For Hypothesis-drawn (previous, next) lists of s-expressions and ea
         'holds the last content written before the interrupt (resp. an accepted '
         'candidate), the input hash is unchanged, the private TMPDIR is empty, stdout '
         'says interrupted.  Non-trivial: previous != next and E >= 3 / an interrupt '
-        'that hit after >= 1 accepted step; distinct = distinct case.')
+        'that hit after >= 1 accepted step; distinct = distinct case.  A third kind of '
+        'real run interrupts the main process while it handles the first result that '
+        'arrives after the n-th acceptance: the accepted input must be in the file by then.')
 ASSUMPTIONS = [
     'granularity: Python-level trace events and OS-level visibility of the file; a torn write inside one write(2) is below it',
     'exit status after an interrupt is C04\'s business and not asserted here',
@@ -173,7 +175,11 @@ def e2e_case(draw):
     c = draw(gen_run.run_case(jobs=(1, 2), formats=('default', 'pretty', 'wrap'), with_cc=False,
                               with_delay=True, comparisons=False, max_asserts=5,
                               kinds=['monotone', 'hash', 'mixed']))
-    c['kind'] = draw(st.sampled_from(['launcher-interrupt', 'launcher-interrupt', 'sigint']))
+    c['kind'] = draw(st.sampled_from(['launcher-interrupt', 'after-accept-interrupt', 'sigint']))
+    if c['kind'] == 'after-accept-interrupt':
+        c['opts']['strategy'] = draw(st.sampled_from(['hierarchical', 'hybrid']))
+        c['opts']['jobs'] = draw(st.sampled_from([2, 3, 4]))
+        c['nth'] = draw(st.integers(1, 6))
     c['point'] = draw(st.integers(1, 4000))
     c['after_tests'] = draw(st.integers(2, 120))
     return c
@@ -215,6 +221,27 @@ def run_e2e(case, acc, wd):
             acc.violation('e2e-no-interrupted-message', f'stdout={r.stdout[-200:]!r} stderr={r.stderr[-300:]!r}', case)
         nt = k >= 2
         classes.append('interrupt-after-accept' if nt else 'interrupt-in-first-write')
+    elif case['kind'] == 'after-accept-interrupt':
+        r = e2e.run_ddsmt(wd, case['text'], case['spec'], case['opts'], mode='launcher',
+                          plan=dict(interrupt_after_accept=case['nth'], stop_on_repeat=True, max_accepts=60),
+                          wall_limit=120, tmp_base=case.get('tmp_base'))
+        if r.timed_out or r.after is None:
+            acc.skip('e2e: wall limit')
+            return False, classes
+        k = r.after.get('interrupted_after_accept')
+        if k is None:
+            acc.skip('e2e: no further result after the n-th acceptance (nothing to interrupt)')
+            return False, classes
+        want = r.after['accepted_log'][k - 1]
+        have = None if r.out_text is None else vspec.full_digest_of_text(r.out_text)
+        if have != want:
+            acc.violation('e2e-accepted-input-not-in-file',
+                          f'interrupt while the first result after acceptance #{k} was processed: the output file '
+                          f'{"is missing" if have is None else "still holds an older content"}', case)
+        if '[ddsmt] interrupted' not in r.stdout:
+            acc.violation('e2e-no-interrupted-message', f'stdout={r.stdout[-200:]!r} stderr={r.stderr[-300:]!r}', case)
+        nt = True
+        classes.append('interrupt-right-after-acceptance')
     else:
         r = e2e.run_ddsmt(wd, case['text'], case['spec'], case['opts'], mode='blackbox',
                           sigint_after_tests=case['after_tests'], wall_limit=60, tmp_base=case.get('tmp_base'))
